@@ -229,8 +229,10 @@ def run(chk):
     with ThreadPoolExecutor(16) as ex:
         fresh = list(ex.map(fresh_solo, range(len(UNDER_TEST))))
     import multiprocessing as mp
-    with mp.get_context("fork").Pool(16) as pool:
-        core.merge(chk, pool.map(replay_behaviours, [(behs, ti, fresh[ti]) for ti in range(len(UNDER_TEST))]))
+    # one process per configuration, forked from this parent (which has constructed no estimator): what "ran before" in the
+    # process is then exactly the OTHER configuration of replay_behaviours, not whatever a reused pool worker did earlier
+    with mp.get_context("fork").Pool(16, maxtasksperchild=1) as pool:
+        core.merge(chk, pool.map(replay_behaviours, [(behs, ti, fresh[ti]) for ti in range(len(UNDER_TEST))], chunksize=1))
 
 
 def replay(chk, body):
